@@ -1,5 +1,5 @@
 // govc:pkg .
-// govc:bound 16 TRIGGER WHEN predicates x 6 output lists x 3 random feeds (quick; 10 with GOVC_BOUND=thorough) of 24 rows over 3 groups
+// govc:bound 16 TRIGGER WHEN predicates x 6 output lists x 3 random feeds (quick; 10 with GOVC_BOUND=thorough) of 24 rows over 3 groups; one lower-case and one camelCase input field
 // Bounded stand-in (NOT a proof) for the part of the global window that is regular-expression based and outside the
 // contracts (rewriting of the TRIGGER WHEN predicate and its binding to aggregates): a group fires exactly at the rows where
 // the predicate holds on the rows received since it last fired, the result carries the aggregates over exactly those rows,
@@ -55,14 +55,14 @@ func govcGWPreds() []govcGWPred {
 		{"MAX(v) > 4", func(v, w []float64) bool { return govcGWMax(v) > 4 }},
 		{"MIN(v) < 1", func(v, w []float64) bool { return govcGWMin(v) < 1 }},
 		{"AVG(v) > 3", func(v, w []float64) bool { return govcGWSum(v)/float64(len(v)) > 3 }},
-		{"SUM(w) > 12", func(v, w []float64) bool { return govcGWSum(w) > 12 }},
-		{"MAX(w) > 4", func(v, w []float64) bool { return govcGWMax(w) > 4 }},
+		{"SUM(wLoad) > 12", func(v, w []float64) bool { return govcGWSum(w) > 12 }},
+		{"MAX(wLoad) > 4", func(v, w []float64) bool { return govcGWMax(w) > 4 }},
 		{"COUNT(*) >= 2 AND SUM(v) > 5", func(v, w []float64) bool { return len(v) >= 2 && govcGWSum(v) > 5 }},
 		{"COUNT(*) >= 4 OR MAX(v) > 4", func(v, w []float64) bool { return len(v) >= 4 || govcGWMax(v) > 4 }},
-		{"SUM(v) > 6 AND SUM(w) > 6", func(v, w []float64) bool { return govcGWSum(v) > 6 && govcGWSum(w) > 6 }},
+		{"SUM(v) > 6 AND SUM(wLoad) > 6", func(v, w []float64) bool { return govcGWSum(v) > 6 && govcGWSum(w) > 6 }},
 		{"MAX(v) > 3 AND MIN(v) < 2", func(v, w []float64) bool { return govcGWMax(v) > 3 && govcGWMin(v) < 2 }},
-		{"SUM(v) > SUM(w)", func(v, w []float64) bool { return govcGWSum(v) > govcGWSum(w) }},
-		{"MAX(v) > 2 AND MAX(w) > 2", func(v, w []float64) bool { return govcGWMax(v) > 2 && govcGWMax(w) > 2 }},
+		{"SUM(v) > SUM(wLoad)", func(v, w []float64) bool { return govcGWSum(v) > govcGWSum(w) }},
+		{"MAX(v) > 2 AND MAX(wLoad) > 2", func(v, w []float64) bool { return govcGWMax(v) > 2 && govcGWMax(w) > 2 }},
 		{"COUNT(*) >= 5", func(v, w []float64) bool { return len(v) >= 5 }},
 	}
 }
@@ -79,13 +79,13 @@ func govcGWOuts() []govcGWOut {
 		{"SUM(v) AS s, COUNT(*) AS n", func(v, w []float64) map[string]float64 {
 			return map[string]float64{"s": govcGWSum(v), "n": float64(len(v))}
 		}},
-		{"MAX(v) AS mx, MIN(w) AS mn", func(v, w []float64) map[string]float64 {
+		{"MAX(v) AS mx, MIN(wLoad) AS mn", func(v, w []float64) map[string]float64 {
 			return map[string]float64{"mx": govcGWMax(v), "mn": govcGWMin(w)}
 		}},
-		{"AVG(w) AS a, SUM(v) AS s", func(v, w []float64) map[string]float64 {
+		{"AVG(wLoad) AS a, SUM(v) AS s", func(v, w []float64) map[string]float64 {
 			return map[string]float64{"a": govcGWSum(w) / float64(len(w)), "s": govcGWSum(v)}
 		}},
-		{"SUM(w) AS sw, MAX(w) AS mw, COUNT(*) AS n", func(v, w []float64) map[string]float64 {
+		{"SUM(wLoad) AS sw, MAX(wLoad) AS mw, COUNT(*) AS n", func(v, w []float64) map[string]float64 {
 			return map[string]float64{"sw": govcGWSum(w), "mw": govcGWMax(w), "n": float64(len(w))}
 		}},
 	}
@@ -100,7 +100,7 @@ func TestGovcBounded_global_window_trigger(t *testing.T) {
 	}
 	for _, pd := range govcGWPreds() {
 		for _, ol := range govcGWOuts() {
-			for feed := 0; feed < feeds; feed++ {
+			for feed := 0; feed < feeds && fails < 8; feed++ { // a broken trigger makes every case wait out its deadline: stop after 8 failures
 				cases++
 				sql := "SELECT g, " + ol.sql + " FROM stream GROUP BY g, GLOBAL WINDOW TRIGGER WHEN " + pd.sql
 				s := New()
@@ -123,7 +123,7 @@ func TestGovcBounded_global_window_trigger(t *testing.T) {
 				for i := 0; i < 24; i++ {
 					g := []string{"a", "b", "c"}[rng.Intn(3)]
 					v, w := float64(rng.Intn(6)), float64(rng.Intn(6))
-					s.Emit(map[string]any{"g": g, "v": v, "w": w})
+					s.Emit(map[string]any{"g": g, "v": v, "wLoad": w})
 					a := state[g]
 					if a == nil {
 						a = &acc{}
